@@ -33,9 +33,22 @@
 (*           transaction spending I<k>                                      *)
 (*  listener [w, s, tw, m]  watches, seen, number of txid watches, monitor  *)
 (*           m = [h, fund, ds, fo, sb, other]                               *)
+(*  state    [h, tip, win, anc, ls, tds, mds]                               *)
+(*           win: the remembered headers below the tip, nearest first;      *)
+(*           anc: the chain below the remembered headers as the honest node *)
+(*           knows it (nearest first, honest filter headers).  anc is NOT   *)
+(*           tracker state: it is the environment the "supplied previous    *)
+(*           headers" argument of a removal is taken from.  A removal uses  *)
+(*           it only in deep-reorg mode (K.deep, nothing remembered): there *)
+(*           the code does not compare the supplied headers with anything   *)
+(*           it remembers; after validate_block the SUPPLIED headers become *)
+(*           the tip, the height goes down, the window stays empty.         *)
 (*  request  [op, link, pow, db, t, c, kind, pf, att, prev, need, probe, pq] *)
 (*           (see harness/src/bin/tracker.rs for the concrete meaning)      *)
-(*  K        [interval, maxReorg, trusted, popFirst, keepDecode]            *)
+(*  K        [interval, maxReorg, trusted, deep, popFirst, keepDecode]      *)
+(*           deep:       ChainTracker::allow_deep_reorgs (the testnet       *)
+(*                       default of NodeConfig): a removal is not refused   *)
+(*                       when no header is remembered below the tip         *)
 (*           popFirst:   remove_block pops the header window BEFORE         *)
 (*                       validate_block (the code at HEAD)                  *)
 (*           keepDecode: a refused streamed request leaves the tracker's /  *)
@@ -164,6 +177,9 @@ Leftover(K, s, finished) ==
   ELSE [s EXCEPT !.tds = FALSE, !.mds = FALSE]
 
 ---------------------------------------------------------------------------
+\* a header as the honest node records it
+Honest(hd) == [hd EXCEPT !.fh = "ok"]
+
 AddBlock(s, r, K) ==
   LET streamed == r.kind \in StreamKinds IN
   IF streamed /\ StreamPanics(s) THEN Panic(s)
@@ -183,6 +199,8 @@ AddBlock(s, r, K) ==
                  fh |-> IF r.pf = "badfh" THEN "bad" ELSE "ok"] IN
   Accept([s2 EXCEPT !.ls = [k \in DOMAIN s2.ls |-> LsForward(s2.ls[k], k, Visible(r, r.c), nh)],
                     !.win = <<s.tip>> \o SubSeq(s.win, 1, MinOf(Len(s.win), K.maxReorg - 1)),
+                    \* a header pushed out of the full window is from now on known to the node only
+                    !.anc = IF Len(s.win) >= K.maxReorg THEN <<Honest(s.win[Len(s.win)])>> \o s.anc ELSE s.anc,
                     !.tip = newTip, !.h = nh,
                     !.mds = IF streamed THEN FALSE ELSE s2.mds])
 
@@ -190,30 +208,49 @@ SuppliedFh(r) == CASE r.prev = "right" -> "ok"
                    [] r.prev = "zerofh" -> "zero"
                    [] OTHER -> "bad"
 
+\* a header that is not part of the chain (prev = "wronghdr")
+Unrelated == [id |-> "U", p |-> "?", c |-> "b", lvl |-> 0, fh |-> "ok"]
+\* deep-reorg mode: nothing is remembered below the tip and deep reorgs are allowed
+DeepMode(K, s) == s.win = <<>> /\ K.deep
+\* the previous headers a removal request supplies when nothing is remembered: the parent of the
+\* tip as the node knows it, with the filter header the request names (no known parent: the node
+\* has nothing that links, the harness supplies the unrelated header)
+SuppliedLinks(s, r) == r.prev # "wronghdr" /\ s.anc # <<>>
+Supplied(s, r) == IF SuppliedLinks(s, r) THEN [s.anc[1] EXCEPT !.fh = SuppliedFh(r)] ELSE Unrelated
+
 RemoveBlock(s, r, K) ==
   LET streamed == r.kind \in StreamKinds IN
   IF streamed /\ StreamPanics(s) THEN Panic(s)
   ELSE
   LET s1 == IF streamed THEN AfterStream(s) ELSE s IN
-  IF s.win = <<>> THEN Refuse(Leftover(K, s1, FALSE), ErrTooDeep)     \* deep reorgs not allowed
-  ELSE IF r.prev = "wronghdr" \/ s.win[1].id # s.tip.p       \* supplied header # remembered header
+  LET deep == DeepMode(K, s) IN
+  IF s.win = <<>> /\ ~K.deep THEN Refuse(Leftover(K, s1, FALSE), ErrTooDeep)     \* deep reorgs not allowed
+  \* something is remembered: the supplied headers must be the remembered ones
+  ELSE IF ~deep /\ (r.prev = "wronghdr" \/ s.win[1].id # s.tip.p)  \* supplied header # remembered header
        THEN Refuse(Leftover(K, s1, FALSE), ErrChain)
-  ELSE IF SuppliedFh(r) # s.win[1].fh THEN Refuse(Leftover(K, s1, FALSE), ErrChain)
+  ELSE IF ~deep /\ SuppliedFh(r) # s.win[1].fh THEN Refuse(Leftover(K, s1, FALSE), ErrChain)
   ELSE
-  LET prevH == s.win[1]
+  \* deep-reorg mode: the supplied headers are used as they are (validate_block checks that the
+  \* tip links to them and verifies the proof against the supplied filter header)
+  LET prevH == IF deep THEN Supplied(s, r) ELSE s.win[1]
+      linkOk == ~deep \/ SuppliedLinks(s, r)
       \* the code at HEAD pops the remembered header here, before validating
-      sp == IF K.popFirst THEN [s1 EXCEPT !.win = Tail(s.win)] ELSE s1 IN
+      sp == IF K.popFirst /\ ~deep THEN [s1 EXCEPT !.win = Tail(s.win)] ELSE s1 IN
   IF ~streamed /\ s1.tds THEN Panic(s)
   ELSE IF streamed THEN Refuse(Leftover(K, sp, TRUE), ErrDecode)
         \* maybe_finish_decoding_block compares the streamed (tip) block's hash with the
         \* PREVIOUS block's hash: a streamed removal is always refused
   ELSE
-  LET v == Validate(K, s, s.h - 1, prevH, TRUE, TRUE, s.tip.lvl, r, s.tip.c, ReverseWatches(s)) IN
+  LET v == Validate(K, s, s.h - 1, prevH, linkOk, TRUE, s.tip.lvl, r, s.tip.c, ReverseWatches(s)) IN
   IF v # ErrNone THEN Refuse(sp, v)
   ELSE IF r.kind = "block" THEN Refuse(sp, ErrProof)
   ELSE IF BackwardPanics(s, Visible(r, s.tip.c)) THEN Panic(s)
   ELSE Accept([s1 EXCEPT !.ls = [k \in DOMAIN s1.ls |-> LsBackward(s1.ls[k], k, Visible(r, s.tip.c), s.h)],
-                         !.win = Tail(s.win), !.tip = prevH, !.h = s.h - 1])
+                         \* headers.pop_front() (no-op when nothing is remembered); the previous
+                         \* headers become the tip
+                         !.win = IF deep THEN <<>> ELSE Tail(s.win),
+                         !.anc = IF deep THEN Tail(s.anc) ELSE s.anc,
+                         !.tip = prevH, !.h = s.h - 1])
 
 Step(s, r, K) == IF r.op = "add" THEN AddBlock(s, r, K) ELSE RemoveBlock(s, r, K)
 
@@ -221,7 +258,7 @@ Step(s, r, K) == IF r.op = "add" THEN AddBlock(s, r, K) ELSE RemoveBlock(s, r, K
 Enabled(s, r) == SeqSet(r.need) \subseteq ForwardWatches(s)
 
 \* the part of the state the harness can observe (the decode states are hidden)
-Obs(s) == [h |-> s.h, tip |-> s.tip, win |-> s.win, ls |-> s.ls]
+Obs(s) == [h |-> s.h, tip |-> s.tip, win |-> s.win, anc |-> s.anc, ls |-> s.ls]
 
 
 ---------------------------------------------------------------------------
@@ -288,30 +325,56 @@ MayAdvance(K, pre, r) ==
   /\ r.kind \in {"compact", "stream"}
   /\ ProofOK(K, r, pre.tip.fh, r.c, ForwardWatches(pre))
 
+\* A removal below the remembered headers is possible only in deep-reorg mode.  There the supplied
+\* previous headers are, by the documented contract of allow_deep_reorgs ("we assume the prev header
+\* is correct and use it"; testnet only), the record of the previous block: the header must be the
+\* parent of the tip and the proof must verify on top of the SUPPLIED filter header (so a supplied
+\* all-zero filter header counts as "recorded without a filter header": UnprovedDeepRetreat counts
+\* these for the evidence).
 MayRetreat(K, pre, r) ==
-  /\ r.op = "rm" /\ pre.win # <<>>
-  /\ r.prev \notin {"wronghdr"} /\ pre.win[1].id = pre.tip.p /\ SuppliedFh(r) = pre.win[1].fh
-  /\ RetargetOK(K, pre.h, pre.win[1].lvl, pre.tip.lvl)
+  /\ r.op = "rm"
   /\ r.kind \in {"compact", "stream"}
-  /\ ProofOK(K, r, pre.win[1].fh, pre.tip.c, ReverseWatches(pre))
+  /\ IF pre.win # <<>>
+     THEN /\ r.prev \notin {"wronghdr"} /\ pre.win[1].id = pre.tip.p /\ SuppliedFh(r) = pre.win[1].fh
+          /\ RetargetOK(K, pre.h, pre.win[1].lvl, pre.tip.lvl)
+          /\ ProofOK(K, r, pre.win[1].fh, pre.tip.c, ReverseWatches(pre))
+     ELSE /\ K.deep
+          /\ r.prev # "wronghdr" /\ pre.anc # <<>> /\ pre.anc[1].id = pre.tip.p
+          /\ RetargetOK(K, pre.h, pre.anc[1].lvl, pre.tip.lvl)
+          /\ ProofOK(K, r, SuppliedFh(r), pre.tip.c, ReverseWatches(pre))
+
+UnprovedDeepRetreat(K, pre, r, resp) ==
+  resp.ok = 1 /\ r.op = "rm" /\ pre.win = <<>> /\ SuppliedFh(r) = "zero"
+
+\* the previous block of the tip in state pre, as a removal with request r reinstates it
+PrevBlock(pre, r) == IF pre.win # <<>> THEN pre.win[1] ELSE [pre.anc[1] EXCEPT !.fh = SuppliedFh(r)]
 
 \* observations: pre/post are Obs-shaped states, resp = [ok, err], chg = components changed
 \* across the add_block / remove_block call (0 = none)
 TipMoved(pre, post) == pre.tip # post.tip \/ pre.h # post.h
 
-MoveValid(K, pre, r, resp, post) ==
-  /\ TipMoved(pre, post) => resp.ok = 1
-  /\ resp.ok = 1 /\ r.op = "add" =>
-        /\ MayAdvance(K, pre, r)
-        /\ post.h = pre.h + 1
+\* may the request be accepted at all ...
+MoveAllowed(K, pre, r) == IF r.op = "add" THEN MayAdvance(K, pre, r) ELSE MayRetreat(K, pre, r)
+\* ... and what an accepted (allowed) request does to tip / height / remembered headers: after an
+\* addition the tip is the new block on top of the old tip; after a removal the tip is the previous
+\* block (the remembered one, below the remembered headers the supplied one), one lower
+PostRight(K, pre, r, post) ==
+  IF r.op = "add"
+  THEN  /\ post.h = pre.h + 1
         /\ post.tip = [id |-> pre.tip.id \o "." \o Token(r), p |-> pre.tip.id, c |-> r.c,
                        lvl |-> pre.tip.lvl + r.db,
                        \* the filter header recorded with the new tip is the attested one (never "none")
                        fh |-> IF r.pf = "badfh" THEN "bad" ELSE "ok"]
         /\ post.win # <<>> /\ post.win[1] = pre.tip
-  /\ resp.ok = 1 /\ r.op = "rm" =>
-        /\ MayRetreat(K, pre, r)
-        /\ post.h = pre.h - 1 /\ post.tip = pre.win[1] /\ post.win = Tail(pre.win)
+  ELSE  /\ post.h = pre.h - 1 /\ post.tip = PrevBlock(pre, r)
+        /\ post.win = IF pre.win # <<>> THEN Tail(pre.win) ELSE <<>>
+
+MoveValid(K, pre, r, resp, post) ==
+  /\ TipMoved(pre, post) => resp.ok = 1
+  /\ resp.ok = 1 => MoveAllowed(K, pre, r) /\ PostRight(K, pre, r, post)
+
+\* (for the report: an accepted, allowed request that left the wrong tip / height / window)
+PostWrong(K, pre, r, resp, post) == resp.ok = 1 /\ MoveAllowed(K, pre, r) /\ ~PostRight(K, pre, r, post)
 
 \* streaming the block (block_chunk, accepted requests of their own) may set saw_block
 NoSb(o) == [o EXCEPT !.ls = [k \in DOMAIN o.ls |-> [o.ls[k] EXCEPT !.m.sb = TRUE]]]
